@@ -5,6 +5,7 @@ from rn.flow import Taint, field_place_src
 from rn.tables import check_table
 from rn.absint import Ref, SymObj, BV, Opaque
 from .c11 import cond_on, field_cond
+from . import c11
 
 SV = 'rnacos::naming::service::Service::'
 NA = 'rnacos::naming::core::NamingActor::'
@@ -154,6 +155,15 @@ def run(ck, fb):
                 ck.require(ok, 'R12d', 'NamingActor::update_instance:%s-reset-guard' % f, nu.where(bb), 'instance.%s is reset outside (at_process_range && !from_grpc)' % f)
             elif o.endswith('naming::model::Instance') and f in ('ip', 'port', 'ephemeral', 'enabled', 'weight'):
                 ck.bad('R12d', 'NamingActor::update_instance:assigns-%s' % f, nu.where(bb), 'NamingActor::update_instance overwrites instance.%s' % f)
+    ck.rule('R12g', 'same as R11e, reported under C12 for the ownership fields: the replaced-owner decision (client_id) is taken after the incoming '
+                    'instance inherited the stored gRPC ownership')
+    sub = type(ck)(ck.prop, fb, write=False)
+    c11.r11e(sub, fb)
+    for o in sub.obligations:
+        if o[2] == 'ok':
+            ck.ok('R12g', o[1], o[3], o[4])
+        else:
+            ck.bad('R12g', o[1], o[3], o[4])
     ck.rule('R12f', 'queries read the service stored under the requested key: get_instance_list / get_instances_and_metadata / '
                     'get_instance_map look up service_map.get(key) with their key parameter and return empty when absent')
     for fn in ('get_instance_list', 'get_instances_and_metadata', 'get_instance_map'):
